@@ -49,6 +49,7 @@ number_tok = st.one_of(
     st.sampled_from(["0.5", "0.25", "1.5", "2.0", "10.", "3.125", "1e3", "2.5E-2", "1E+2", "7e0", "0", "100"]),
     st.integers(1, 9).map(lambda k: f"-{k}"),
     st.sampled_from(["-0.5", "-2.5e1", "+3", "+0.25"]),
+    st.sampled_from([".5", "-.25", ".125e1", "+.5"]),  # a leading decimal point is a number too (float() reads it)
 )
 
 
@@ -58,7 +59,7 @@ def expr(draw, depth):
         if draw(st.booleans()):
             return ["num", draw(number_tok)]
         return ["stat", draw(st.sampled_from(STATS))]
-    k = draw(st.sampled_from(["bin"] * 6 + ["paren"] * 2 + ["neg"] * 2))
+    k = draw(st.sampled_from(["bin"] * 6 + ["paren"] * 2 + ["neg"] * 2 + ["pos"]))
     if k == "bin":
         return ["bin", draw(st.sampled_from(["+", "-", "*", "/"])), draw(expr(depth - 1)), draw(expr(depth - 1))]
     return [k, draw(expr(depth - 1))]
@@ -76,12 +77,12 @@ def render(e, parent_prec=0, right=False):
         return [e[1]]
     if k == "paren":
         return ["("] + render(e[1]) + [")"]
-    if k == "neg":
+    if k in ("neg", "pos"):
         inner = e[1]
         toks = render(inner, 3)
         if inner[0] == "bin":
             toks = ["("] + render(inner) + [")"]
-        return ["-"] + toks
+        return ["-" if k == "neg" else "+"] + toks
     op, a, b = e[1], e[2], e[3]
     p = PREC[op]
     toks = render(a, p, False) + [op] + render(b, p, True)
@@ -100,6 +101,8 @@ def evaluate(e, stats):
         return evaluate(e[1], stats)
     if k == "neg":
         return -evaluate(e[1], stats)
+    if k == "pos":
+        return evaluate(e[1], stats)
     a, b = evaluate(e[2], stats), evaluate(e[3], stats)
     op = e[1]
     if op == "+":
@@ -123,8 +126,10 @@ def features(e, acc=None):
     acc = acc if acc is not None else set()
     if e[0] == "bin":
         acc.add("add" if e[1] in "+-" else "mul")
-    elif e[0] in ("paren", "neg"):
-        acc.add(e[0])
+    elif e[0] in ("paren", "neg", "pos"):
+        acc.add("neg" if e[0] == "pos" else e[0])
+        if e[0] == "pos":
+            acc.add("unary_plus")
     for x in e[1:]:
         if isinstance(x, list):
             features(x, acc)
@@ -620,7 +625,7 @@ def parse_tokens(tokens):
         if t in STATS:
             eat()
             return ["stat", t]
-        if DEC.match(t) and t[0] not in ".+" and not t.rstrip("0123456789").endswith(("e", "E")):
+        if DEC.match(t) and t[0] not in "+" and not t.rstrip("0123456789").endswith(("e", "E")):
             eat()
             return ["num", t]
         raise BadTokens
@@ -629,6 +634,9 @@ def parse_tokens(tokens):
         if peek() == "-":
             eat()
             return ["neg", factor()]
+        if peek() == "+":
+            eat()
+            return ["pos", factor()]
         return atom()
 
     def term():
